@@ -54,7 +54,7 @@ func (c20) Cases(tier string) int {
 
 func c20Layout(r *rand.Rand, idx int) model.Layout {
 	var l model.Layout
-	l.Method = 2
+	l.Method = 1 + idx%6 // the sum relation between the archives is generate's, whatever the file's aggregation method
 	l.Xff = []float32{0, 0.5, 1}[r.Intn(3)]
 	k := 1 + r.Intn(4)
 	step := uint32(1 + r.Intn(5))
